@@ -37,10 +37,10 @@
 #include "CppUTestConfig.h"
 
 #define CHECK_EQUAL_C_BOOL(expected,actual) \
-  CHECK_EQUAL_C_BOOL_LOCATION(expected,actual,NULL,__FILE__,__LINE__)
+  CHECK_EQUAL_C_BOOL_LOCATION((expected) ? 1 : 0,(actual) ? 1 : 0,NULL,__FILE__,__LINE__)
 
 #define CHECK_EQUAL_C_BOOL_TEXT(expected,actual,text) \
-  CHECK_EQUAL_C_BOOL_LOCATION(expected,actual,text,__FILE__,__LINE__)
+  CHECK_EQUAL_C_BOOL_LOCATION((expected) ? 1 : 0,(actual) ? 1 : 0,text,__FILE__,__LINE__)
 
 #define CHECK_EQUAL_C_INT(expected,actual) \
   CHECK_EQUAL_C_INT_LOCATION(expected,actual,NULL,__FILE__,__LINE__)
@@ -133,10 +133,10 @@
   FAIL_C_LOCATION(__FILE__,__LINE__)
 
 #define CHECK_C(condition) \
-  CHECK_C_LOCATION(condition, #condition, NULL, __FILE__,__LINE__)
+  CHECK_C_LOCATION((condition) ? 1 : 0, #condition, NULL, __FILE__,__LINE__)
 
 #define CHECK_C_TEXT(condition, text) \
-  CHECK_C_LOCATION(condition, #condition, text, __FILE__, __LINE__)
+  CHECK_C_LOCATION((condition) ? 1 : 0, #condition, text, __FILE__, __LINE__)
 
 /******************************************************************************
  *
